@@ -1,6 +1,7 @@
 package main
 
 import (
+	"os"
 	"fmt"
 	"strconv"
 	"go/constant"
@@ -134,6 +135,14 @@ func (ex *executor) load(st *state, a *Addr) Value {
 	v := Value{T: t, C: make([]*Term, hi-lo)}
 	for j := lo; j < hi; j++ {
 		v.C[j-lo] = ex.heapOf(st, cs[j]).Read(key)
+	}
+	// memory safety: a reference found in memory designates an object allocated before the read
+	if st.alloc != nil && os.Getenv("GOVC_NOREFBOUND") == "" {
+		for j, k := range leafKinds(t) {
+			if k == leafRef && j < len(v.C) && v.C[j].op != "const" && !v.C[j].bound {
+				AddFact(v.C[j], ILt(v.C[j], st.alloc))
+			}
+		}
 	}
 	return v
 }
